@@ -74,27 +74,27 @@ PROPERTIES = {
         assumptions=[],
     ),
     'C11': dict(
-        units=['timeout', 'kani_timeout'],
-        canaries=['timeout'],
+        units=['timeout', 'kani_timeout', 'kani_poll'],
+        canaries=['timeout', 'poll'],
         counterexample=cex.cex_c11,
         extra=[validate.default_timeouts_wiring],
         scope='the deadline armed for a request is exactly min(local default, timeout header) in both directions, either may be absent, an '
               'unparsable header counts as absent (closure contract), so a remote peer can shorten but never extend or disable the local limit (lemma); '
               'the request reaches the wrapped service exactly once; header parsing and printing; the configured defaults are what the accessors and layers hand to the middleware.',
-        unverified=['ResponseFuture::poll (pin_project): that the handler is cut off at the deadline with RequestTimeout / a timeout error, and that a faster handler wins the race',
+        unverified=['that tokio actually wakes the future when the timer fires, and drops the handler future when the response future completes (runtime)',
                     'Builder::start installs both layers around the user service and every outbound call with the configured values: NOT under contract (ServiceBuilder / BoxLayer generics); exercised end to end on real networks by the execution check default_timeouts_wiring',
                     'meaning of str::parse::<u64> and u64::to_string (std; uninterpreted, assumed inverse)'],
         assumptions=['tokio::time::sleep(d) arms a timer of duration d (millisecond granularity)'],
     ),
     'C20': dict(
-        units=['auth'],
-        canaries=['auth'],
+        units=['auth', 'kani_poll'],
+        canaries=['auth', 'poll'],
         counterexample=cex.cex_c20,
         scope='the wrapped service is invoked (exactly once, with the unchanged request) iff the authorizer accepted; a refused request gets exactly the '
               'authorizer\'s response and causes no invocation (ghost call log on the generic Service); the allow-list authorizer implements the '
               'decision of the statement verbatim (listed -> accept, unlisted -> NotFound, no sender -> InternalServerError) and leaves the request untouched; '
               'the service holds no shared mutable state (the authorizer is unchanged by call), so concurrent use through clones is a set of independent sequential calls.',
-        unverified=['ResponseFuture::poll (pin_project): that the stored refusal response is what the future yields and that the accepted future is polled through',
+        unverified=[
                     'AllowedPeers::new (into_iter().collect()): the set holds exactly the given peers (std)',
                     'that the network attaches the authenticated PeerId as the request extension read by peer_id() (C01)'],
         assumptions=['derived Hash/Eq of PeerId obey the hash-set key model'],
